@@ -110,9 +110,25 @@ class Event:
         return f'{self.kind}{d}'
 
 
-def dt_coeff(e, dtname='dt'):
+def dt_locals(fn, dtname='dt'):
+    """locals with exactly one definition that is a multiple of dt (`dt_half = 0.5*dt`): name -> Affine in dt"""
+    stores = {}
+    for n in ast.walk(fn):
+        if isinstance(n, ast.Name) and isinstance(n.ctx, ast.Store):
+            stores[n.id] = stores.get(n.id, 0) + 1
+    env = {}
+    for n in ast.walk(fn):
+        if isinstance(n, ast.Assign) and len(n.targets) == 1 and isinstance(n.targets[0], ast.Name) \
+                and stores.get(n.targets[0].id) == 1 and stores.get(dtname, 0) == 0:
+            a = try_affine(n.value, env)
+            if a is not None and a.syms() == {dtname} and a.c == 0:
+                env[n.targets[0].id] = a
+    return env
+
+
+def dt_coeff(e, dtname='dt', env=None):
     """coefficient of dt in a time-step argument: 0.5*dt, dt, -0.5*dt, dt/2, -dt/2 ..."""
-    a = try_affine(e)
+    a = try_affine(e, env)
     if a is None:
         return None
     if a.syms() == {dtname} and a.c == 0:
@@ -163,6 +179,8 @@ class SweepExtractor:
         k = self.site_ref(e)
         if k is not None:
             return (k, k)
+        if isinstance(e, ast.Name) and e.id in self.temps and self.temps[e.id][0] == 'pending_site':
+            return (self.temps[e.id][1], self.temps[e.id][1])
         if isinstance(e, ast.Name) and e.id in self.temps and self.temps[e.id][0] == 'merged':
             return self.temps[e.id][1:]
         return None
@@ -207,6 +225,7 @@ class SweepMachine:
         self.counts = {'calls': 0, 'stores': 0}
         self.two_site = two_site
         self.label_stores = []
+        self.dtenv = dt_locals(fi.node)
 
     # ------------------------------------------------------------------
     def ctx(self):
@@ -265,6 +284,9 @@ class SweepMachine:
     def branch(self, s, st):
         """a conditional with an opaque test: both arms are followed, the configurations are joined to the weaker
         one; arms that contain scheduled steps (local evolution / optimisation) are not an idiom of the sweeps"""
+        dec = self.static_test(s.test)
+        if dec is not None:
+            return self.run(s.body if dec else s.orelse, st)
         outs, temps = [], []
         t0 = dict(self.x.temps)
         for arm in (s.body, s.orelse):
@@ -287,6 +309,103 @@ class SweepMachine:
         except Undecided as ex:
             raise AnalysisError(f'{self.fi.qual}: conditional at line {s.lineno}: {ex}')
 
+    def static_test(self, test):
+        """a comparison of affine expressions in L and the loop variables that the number-of-sites case and the loop
+        intervals decide: True / False, else None"""
+        if isinstance(test, ast.UnaryOp) and isinstance(test.op, ast.Not):
+            d = self.static_test(test.operand)
+            return None if d is None else not d
+        if not (isinstance(test, ast.Compare) and len(test.ops) == 1):
+            return None
+        ea = self.x.env_affine()
+        lenmap = {f'{self.psi}.A': self.Lv, 'self.A': self.Lv, 'BR': self.Lv, 'BL': self.Lv}
+        attrs = {f'{self.psi}.nsites': self.Lv, f'{self.ham}.nsites': self.Lv}
+        a = try_affine(test.left, ea, attrs, lenmap)
+        b = try_affine(test.comparators[0], ea, attrs, lenmap)
+        if a is None or b is None:
+            return None
+        known = {'L'} | {v_ for v_, _, _ in self.loops}
+        if not (a.syms() | b.syms()) <= known:
+            return None
+        c = self.ctx()
+        op = test.ops[0]
+
+        def lt(x, y):           # x < y: True / False / None
+            if nonneg(y - x - ONE, c):
+                return True
+            if nonneg(x - y, c):
+                return False
+            return None
+        if isinstance(op, ast.Lt):
+            return lt(a, b)
+        if isinstance(op, ast.Gt):
+            return lt(b, a)
+        if isinstance(op, ast.LtE):
+            d = lt(b, a)
+            return None if d is None else not d
+        if isinstance(op, ast.GtE):
+            d = lt(a, b)
+            return None if d is None else not d
+        if isinstance(op, (ast.Eq, ast.NotEq)):
+            if a == b:
+                d = True
+            elif lt(a, b) or lt(b, a):
+                d = False
+            else:
+                return None
+            return d if isinstance(op, ast.Eq) else not d
+        return None
+
+    def fold_static(self, e):
+        """conditional expressions with a statically decided test are replaced by the chosen arm"""
+        while isinstance(e, ast.IfExp):
+            d = self.static_test(e.test)
+            if d is None:
+                break
+            e = e.body if d else e.orelse
+        return e
+
+    def peel(self, s, var, it, desc):
+        """a loop whose body tests the loop variable against its first / last value is split into that iteration
+        (guarded by the loop being non-empty) and the loop over the remaining values; returns statements or None"""
+        lo = it.args[0] if len(it.args) == 2 else ast.Constant(0)
+        hi = it.args[-1]
+        one = ast.Constant(1)
+        ea = self.x.env_affine()
+        lenmap = {f'{self.psi}.A': self.Lv, 'self.A': self.Lv, 'BR': self.Lv, 'BL': self.Lv}
+        alo, ahi = try_affine(lo, ea, len_syms=lenmap), try_affine(hi, ea, len_syms=lenmap)
+        if alo is None or ahi is None:
+            return None
+        first_v, last_v = (ahi - ONE, alo) if desc else (alo, ahi - ONE)
+        which = None
+        for n in ast.walk(ast.Module(s.body, [])):
+            if isinstance(n, ast.Compare) and len(n.ops) == 1 and isinstance(n.ops[0], (ast.Eq, ast.NotEq)):
+                l_, r_ = n.left, n.comparators[0]
+                if isinstance(r_, ast.Name) and r_.id == var:
+                    l_, r_ = r_, l_
+                if isinstance(l_, ast.Name) and l_.id == var:
+                    b = try_affine(r_, ea, len_syms=lenmap)
+                    if b is not None and b == first_v:
+                        which = which or 'first'
+                    elif b is not None and b == last_v:
+                        which = which or 'last'
+        if which is None:
+            return None
+        call = lambda a, b: ast.Call(ast.Name('range', ast.Load()), [a, b], [])
+        plus = lambda a: ast.BinOp(a, ast.Add(), one)
+        minus = lambda a: ast.BinOp(a, ast.Sub(), one)
+        at_hi = (which == 'first') == desc          # the peeled value is hi - 1
+        rest_it = call(lo, minus(hi)) if at_hi else call(plus(lo), hi)
+        if desc:
+            rest_it = ast.Call(ast.Name('reversed', ast.Load()), [rest_it], [])
+        rest = ast.For(s.target, rest_it, s.body, [], lineno=s.lineno, col_offset=s.col_offset)
+        bind = ast.Assign([ast.Name(var, ast.Store())], minus(hi) if at_hi else lo, lineno=s.lineno, col_offset=s.col_offset)
+        once = ast.If(ast.Compare(lo, [ast.Lt()], [hi]), [bind] + list(s.body), [], lineno=s.lineno, col_offset=s.col_offset)
+        out = [once, rest] if which == 'first' else [rest, once]
+        for o in out:
+            ast.fix_missing_locations(o)
+        return out
+
     def loop(self, s, st):
         if all(isinstance(b, ast.Assert) or (isinstance(b, ast.Expr) and isinstance(b.value, ast.Constant)) for b in s.body):
             return st        # a loop of consistency checks changes nothing
@@ -298,10 +417,24 @@ class SweepMachine:
         if isinstance(it, ast.Call) and norm(it.func) == 'reversed' and len(it.args) == 1:
             desc = True
             it = it.args[0]
+        if isinstance(it, ast.Call) and norm(it.func) == 'range' and len(it.args) == 3 and norm(it.args[2]) == '-1' \
+                and not desc:
+            # range(a, b, -1) visits a, a-1, .., b+1: reversed(range(b + 1, a + 1))
+            desc = True
+            one = ast.Constant(1)
+            it = ast.Call(ast.Name('range', ast.Load()),
+                          [ast.BinOp(it.args[1], ast.Add(), one), ast.BinOp(it.args[0], ast.Add(), one)], [])
         if not (isinstance(it, ast.Call) and norm(it.func) == 'range' and 1 <= len(it.args) <= 2):
             raise AnalysisError(f'{self.fi.qual}: loop `{norm(s.iter)}` is not range(...) / reversed(range(...))')
         if norm(it).startswith('range(len(B'):
             return st        # consistency-check loop over the environment list
+        if not getattr(s, '_peeled', False):
+            parts = self.peel(s, var, it, desc)
+            if parts is not None:
+                for p_ in parts:
+                    if isinstance(p_, ast.For):
+                        p_._peeled = True
+                return self.run(parts, st)
         ea = self.x.env_affine()
         lenmap = {f'{self.psi}.A': self.Lv, 'self.A': self.Lv, 'BR': self.Lv, 'BL': self.Lv}
         args = [try_affine(a, ea, len_syms=lenmap) for a in it.args]
@@ -440,7 +573,7 @@ class SweepMachine:
         c = self.ctx()
         st = st.copy()
         self.counts['stores'] += 1
-        for nm_ in [n_ for n_, t_ in self.x.temps.items() if t_ and t_[0] == 'site_alias']:
+        for nm_ in [n_ for n_, t_ in self.x.temps.items() if t_ and t_[0] in ('site_alias', 'site_view')]:
             del self.x.temps[nm_]           # a site tensor changes: local names for site tensors are stale
         try:
             st.hi = amin(st.hi, k, c)
@@ -471,6 +604,15 @@ class SweepMachine:
     # ------------------------------------------------------------------
     def simple(self, s, targets, value, st):
         x = self.x
+        value = self.fold_static(value)
+        if len(targets) == 1 and isinstance(targets[0], ast.Name) and not isinstance(value, ast.Call):
+            a_dt = dt_coeff(value, env=self.dtenv)
+            if a_dt is not None and targets[0].id != 'dt':
+                self.dtenv = dict(self.dtenv)
+                self.dtenv[targets[0].id] = Affine.sym('dt').scale(a_dt)      # a local multiple of the time step
+                return st
+            if targets[0].id in self.dtenv:
+                self.dtenv = {k_: v_ for k_, v_ in self.dtenv.items() if k_ != targets[0].id}
         # ---- calls that define temporaries
         if isinstance(value, ast.Call):
             f = norm(value.func)
@@ -491,6 +633,12 @@ class SweepMachine:
                 if k0 is not None and k1 is not None:
                     x.temps[targets[0].id] = ('merged_op', k0, k0 + ONE)
                 return st
+            if f in ('eigh_krylov', 'expm_krylov') and a and isinstance(a[0], ast.Lambda) and len(a) >= 3:
+                syn = self.inline_local_problem(value)
+                if syn is not None:
+                    value = syn
+                    f = norm(value.func)
+                    a = value.args
             if f in ('_local_hamiltonian_step', '_minimize_local_energy'):
                 return self.local_step(s, targets, value, st)
             if f == '_local_bond_step':
@@ -577,7 +725,23 @@ class SweepMachine:
         # ---- stores into psi.A[...] from expressions over temporaries
         for t in targets:
             k = x.site_ref(t)
+            if k is None and isinstance(t, ast.Subscript) and x.site_ref(t.value) is not None:
+                # psi.A[k][...] = value: the existing array is written in place - it keeps its dtype and shape, whereas
+                # the factors of a QR / the results of the local steps may be complex and of a different bond dimension
+                k = x.site_ref(t.value)
+                used = sorted(nm for nm in {n.id for n in ast.walk(value) if isinstance(n, ast.Name)}
+                              if x.temps.get(nm) and x.temps[nm][0] in ('bondmat', 'local_result', 'qfactor', 'pending_site'))
+                if used:
+                    self.rep.add('slot', s, False,
+                                 f'`{norm(s)[:70]}`: the new tensor of site {k} replaces the list entry (written into the '
+                                 f'existing array it is cast to the old dtype - the imaginary part of a complex update of a '
+                                 f'real-stored tensor is discarded - and must keep the old bond dimensions)')
             if k is not None:
+                for nm in {n.id for n in ast.walk(value) if isinstance(n, ast.Name)}:
+                    tt = x.temps.get(nm)
+                    if tt and tt[0] == 'local_result':
+                        self.rep.add('slot', s, k == tt[1], f'result of the local step on site {tt[1]} is stored back into '
+                                                           f'psi.A[{k}]')
                 kind = self.classify_store(s, t, value, k)
                 for nm in {n.id for n in ast.walk(value) if isinstance(n, ast.Name)}:
                     tt = x.temps.get(nm)
@@ -587,6 +751,19 @@ class SweepMachine:
                                      f'bond matrix `{nm}` of bond {tt[1]} is absorbed into the neighbouring site {want} '
                                      f'(stored into psi.A[{k}])')
                 st = self.write_site(s, k, kind, st)
+        # ---- a site tensor with a bond matrix absorbed, held in a local before it is handed on / stored
+        if len(targets) == 1 and isinstance(targets[0], ast.Name):
+            sites_ = [x.site_ref(n_) for n_ in ast.walk(value) if isinstance(n_, ast.Subscript)]
+            sites_ = [k_ for k_ in sites_ if k_ is not None]
+            bms = [x.temps[n_.id] for n_ in ast.walk(value) if isinstance(n_, ast.Name) and
+                   x.temps.get(n_.id) and x.temps[n_.id][0] == 'bondmat']
+            if len(sites_) == 1 and len(bms) == 1:
+                tt = bms[0]
+                want = tt[1] if tt[2] == 'left' else tt[1] - ONE
+                self.rep.add('slot', s, sites_[0] == want, f'bond matrix of bond {tt[1]} is absorbed into the neighbouring site '
+                                                           f'{want} (combined with psi.A[{sites_[0]}])')
+                x.temps[targets[0].id] = ('pending_site', sites_[0])
+                return st
         # ---- bookkeeping of temporaries
         if len(targets) == 1 and isinstance(targets[0], ast.Name):
             nm = targets[0].id
@@ -607,6 +784,11 @@ class SweepMachine:
             elif isinstance(value, ast.Subscript) and x.site_ref(value) is not None:
                 # a local name for the current tensor of a site (valid until a site tensor is written)
                 x.temps[nm] = ('site_alias', x.site_ref(value), self.psi)
+            elif self.view_of_site(value) is not None:
+                # a transposed / reshaped view of the current tensor of a site (only an in-line QR may consume it)
+                x.temps[nm] = ('site_view', self.view_of_site(value))
+            elif x.temps.get(nm, ('',))[0] in ('local_result', 'site_view'):
+                del x.temps[nm]                 # the name is rebound to something else
             elif isinstance(value, (ast.BinOp, ast.Name, ast.Constant)) and nm not in x.temps:
                 a_ = try_affine(value, x.env_affine())
                 known = {'L'} | {v_ for v_, _, _ in self.loops}
@@ -626,6 +808,38 @@ class SweepMachine:
         return st
 
     # ------------------------------------------------------------------
+    def inline_local_problem(self, call):
+        """eigh_krylov(lambda x: apply_local_hamiltonian(L, R, W, x.reshape(A.shape)).reshape(-1), A.reshape(-1), n, 1)
+        is the body of _minimize_local_energy(L, R, W, A, n); expm_krylov(lambda ..., A.reshape(-1), -dt, n, ..) that of
+        _local_hamiltonian_step(L, R, W, A, dt, n) / _local_bond_step(L, R, C, dt, n): the equivalent helper call"""
+        lam = call.args[0]
+        body = lam.body
+        if not (isinstance(body, ast.Call) and isinstance(body.func, ast.Attribute) and body.func.attr == 'reshape' and
+                isinstance(body.func.value, ast.Call)):
+            return None
+        inner = body.func.value
+        fn = norm(inner.func)
+        start = call.args[1]
+        if not (isinstance(start, ast.Call) and isinstance(start.func, ast.Attribute) and start.func.attr == 'reshape'
+                and len(start.args) == 1 and norm(start.args[0]) == '-1'):
+            return None
+        tensor = start.func.value
+        def mk(name, args):
+            c = ast.Call(func=ast.Name(id=name, ctx=ast.Load()), args=args, keywords=[])
+            ast.copy_location(c, call)
+            ast.fix_missing_locations(c)
+            return c
+        if norm(call.func) == 'eigh_krylov' and fn == 'apply_local_hamiltonian' and len(inner.args) == 4 and len(call.args) >= 4:
+            return mk('_minimize_local_energy', list(inner.args[:3]) + [tensor, call.args[2]])
+        if norm(call.func) == 'expm_krylov' and len(call.args) >= 4:
+            t = call.args[2]
+            dt = t.operand if isinstance(t, ast.UnaryOp) and isinstance(t.op, ast.USub) else ast.UnaryOp(op=ast.USub(), operand=t)
+            if fn == 'apply_local_hamiltonian' and len(inner.args) == 4:
+                return mk('_local_hamiltonian_step', list(inner.args[:3]) + [tensor, dt, call.args[3]])
+            if fn == 'apply_local_bond_contraction' and len(inner.args) == 3:
+                return mk('_local_bond_step', list(inner.args[:2]) + [tensor, dt, call.args[3]])
+        return None
+
     def classify_store(self, s, target, value, k):
         """isometry kind of an in-line store into psi.A[k] (values built from the factors of an in-line qr)"""
         x = self.x
@@ -679,7 +893,7 @@ class SweepMachine:
                   f'sites right of {hi_site} are right-isometric at the local step (right-isometric above {st.b})')
         coef = None
         if f == '_local_hamiltonian_step':
-            coef = dt_coeff(a[4])
+            coef = dt_coeff(a[4], env=self.dtenv)
             if coef is None:
                 raise AnalysisError(f'{self.fi.qual}: time-step argument `{norm(a[4])}` is not a multiple of dt')
         kind = 'H1' if lo_site == hi_site else 'H2'
@@ -697,7 +911,9 @@ class SweepMachine:
             return self.write_site(s, k, 'centre', st)
         if isinstance(tgt, ast.Name):
             if lo_site == hi_site:
-                raise AnalysisError(f'{self.fi.qual}: single-site result stored into `{tgt.id}`')
+                # the result of the local problem on one site, kept in a local until it is stored back
+                x.temps[tgt.id] = ('local_result', lo_site)
+                return st
             ok = isinstance(a[3], ast.Name) and tgt.id == a[3].id
             self.rep.add('slot', s, ok, f'merged tensor `{tgt.id}` is replaced by its evolved / optimised version')
             return st
@@ -714,7 +930,14 @@ class SweepMachine:
         c = self.ctx()
         k = bl[1]
         self.rep.add('slot', s, br[1] + ONE == k, f'`{norm(value)[:70]}`: BL[{bl[1]}] and BR[{br[1]}] enclose one bond')
-        Cn = a[2].id if isinstance(a[2], ast.Name) else None
+        arg = a[2]
+        if isinstance(arg, ast.Call) and norm(arg.func) == 'np.transpose' and len(arg.args) == 1:
+            arg = arg.args[0]
+        elif isinstance(arg, ast.Attribute) and arg.attr == 'T':
+            arg = arg.value
+        elif isinstance(arg, ast.Call) and isinstance(arg.func, ast.Attribute) and arg.func.attr == 'transpose' and not arg.args:
+            arg = arg.func.value
+        Cn = arg.id if isinstance(arg, ast.Name) else None
         t = x.temps.get(Cn)
         okc = t is not None and t[0] == 'bondmat'
         self.rep.add('slot', s, okc and t[1] == k, f'`{norm(value)[:70]}`: bond matrix `{Cn}` lives on bond {k}'
@@ -723,12 +946,14 @@ class SweepMachine:
         self.need('stale', s, lambda: le(st.lo, br[1], c), f'BR[{br[1]}] is up to date when used (valid from {st.lo})')
         self.need('canonical', s, lambda: le(k, st.a, c), f'sites left of bond {k} are left-isometric at the bond step')
         self.need('canonical', s, lambda: le(st.b, k - ONE, c), f'sites right of bond {k} are right-isometric at the bond step')
-        coef = dt_coeff(a[3])
+        coef = dt_coeff(a[3], env=self.dtenv)
         if coef is None:
             raise AnalysisError(f'{self.fi.qual}: time-step argument `{norm(a[3])}` is not a multiple of dt')
         self.event(Event('K', s, lo=k, hi=k, coef=coef))
-        ok = len(targets) == 1 and isinstance(targets[0], ast.Name) and targets[0].id == Cn
-        self.rep.add('slot', s, ok, 'evolved bond matrix replaces the bond matrix')
+        ok = len(targets) == 1 and isinstance(targets[0], ast.Name)
+        self.rep.add('slot', s, ok, 'the evolved bond matrix is bound to a name (it replaces the bond matrix)')
+        if ok and okc:
+            x.temps[targets[0].id] = t          # the evolved matrix lives on the same bond
         return st
 
     def env_update(self, s, targets, value, st):
@@ -859,6 +1084,22 @@ class SweepMachine:
         self.event(Event('refactor', s, lo=bond, hi=bond, dummy=dummy, left=left))
         return st
 
+    def view_of_site(self, e):
+        """`psi.A[k].transpose(..)`, `np.transpose(psi.A[k], ..)`, `.reshape(..)` chains -> k, else None"""
+        seen = False
+        while True:
+            if isinstance(e, ast.Call) and isinstance(e.func, ast.Attribute) and e.func.attr in ('transpose', 'reshape'):
+                if norm(e.func.value) == 'np' and e.args:
+                    e = e.args[0]
+                else:
+                    e = e.func.value
+                seen = True
+                continue
+            break
+        if seen and isinstance(e, ast.Subscript):
+            return self.x.site_ref(e)
+        return None
+
     def inline_qr(self, s, targets, value, st):
         """(Q, C, label) = qr(psi.A[i].reshape((s[0]*s[1], s[2])), flatten([psi.qd, +-psi.qD[..]]), +-psi.qD[..])"""
         x = self.x
@@ -866,12 +1107,24 @@ class SweepMachine:
         self.counts['calls'] += 1
         if len(targets) != 3 or len(a) != 3:
             raise AnalysisError(f'{self.fi.qual}: in-line qr `{norm(s)[:70]}` not of the recognised form')
+        # quantum-number arguments held in locals are looked through (definitions unique in the function)
+        from .defuse import local_defs, expand
+        defs_ = {k_: v_ for k_, v_ in local_defs(self.fi.node).items() if isinstance(v_, (ast.Call, ast.UnaryOp))}
+        a = [a[0]] + [expand(x_, defs_) if isinstance(x_, ast.Name) else x_ for x_ in a[1:]]
         m = a[0]
         site = None
         for n in ast.walk(m):
             k = x.site_ref(n) if isinstance(n, ast.Subscript) else None
             if k is not None:
                 site = k
+            t = x.temps.get(n.id) if isinstance(n, ast.Name) else None
+            if t and t[0] == 'site_view' and site is None:
+                site = t[1]
+            if t and t[0] == 'local_result' and site is None:
+                # the evolved / optimised tensor of the site, factorised before it is stored back: its isometry
+                # replaces the site tensor in the store that follows
+                site = t[1]
+                st = self.write_site(s, site, 'centre', st)
         if site is None:
             raise AnalysisError(f'{self.fi.qual}: in-line qr does not factorise a site tensor')
         q0, q1 = norm(a[1]), norm(a[2])
@@ -950,9 +1203,138 @@ def _ev_key(ev, var=None, shift=None):
     return (ev.kind, lo, hi, ev.coef)
 
 
+def _tok(ev):
+    return (ev.kind, ev.lo, ev.hi, ev.coef)
+
+
+def _tsub(t, var, val):
+    return (t[0], t[1].subst(var, val), t[2].subst(var, val), t[3])
+
+
+def _tstr(t):
+    return f'{t[0]} on [{t[1]}, {t[2]}] with fraction {t[3]}'
+
+
+class _Run:
+    """for _i from `first` in steps of `step` (+1 / -1) to `last`: body(_i)"""
+    V = '_i'
+
+    def __init__(self, var, i0, i1, desc, body):
+        v = Affine.sym(self.V)
+        self.body = [_tsub(t, var, v) if var != self.V else t for t in body]
+        self.i0, self.i1, self.desc = i0, i1, desc
+
+    step = property(lambda self: -1 if self.desc else 1)
+    first = property(lambda self: self.i1 if self.desc else self.i0)
+    last = property(lambda self: self.i0 if self.desc else self.i1)
+
+    def at(self, j, it):
+        return _tsub(self.body[j], self.V, it)
+
+    def shrink_last(self):
+        if self.desc:
+            self.i0 = self.i0 + ONE
+        else:
+            self.i1 = self.i1 - ONE
+
+    def grow(self, at_end):
+        if at_end != self.desc:
+            self.i1 = self.i1 + ONE
+        else:
+            self.i0 = self.i0 - ONE
+
+    def reindex(self):
+        """the first sub-step sits at position _i"""
+        c = self.body[0][1] - Affine.sym(self.V)
+        if c.is_const() and c.c != 0:
+            v = Affine.sym(self.V) - c
+            self.body = [_tsub(t, self.V, v) for t in self.body]
+            self.i0, self.i1 = self.i0 + c, self.i1 + c
+
+    def key(self):
+        return ('loop', self.i0, self.i1, self.desc, tuple(self.body))
+
+    def __str__(self):
+        rng = f'{self.i1} down to {self.i0}' if self.desc else f'{self.i0} up to {self.i1}'
+        return f'for i = {rng}: ' + '; '.join(_tstr(t) for t in self.body).replace(self.V, 'i')
+
+
+def normal_runs(segs):
+    """The event sequence of one time step in a normal form that does not depend on how the source cuts it into loops
+    and single statements: every loop body is rotated to start with its least kind (the cut-off sub-steps of the first
+    and last iteration become single steps), loops absorb neighbouring single steps that continue them, neighbouring
+    loops that continue each other are merged, and the loop variable is the position of the first sub-step."""
+    items = []
+    for sg in segs:
+        if sg[0] == 'single':
+            items.append(_tok(sg[1]))
+        else:
+            _, var, i0, i1, desc, evs = sg
+            items.append(_Run(var, i0, i1, desc, [_tok(e) for e in evs]))
+    # 1. canonical phase
+    out = []
+    for it in items:
+        if not isinstance(it, _Run):
+            out.append(it)
+            continue
+        m = len(it.body)
+        kinds = [t[0] for t in it.body]
+        r = min(range(m), key=lambda q: (tuple(kinds[q:] + kinds[:q]), q))
+        if r:
+            v = Affine.sym(_Run.V)
+            pre = [it.at(j, it.first) for j in range(r)]
+            post = [it.at(j, it.last) for j in range(r, m)]
+            it.body = it.body[r:] + [_tsub(t, _Run.V, v + Affine.const(it.step)) for t in it.body[:r]]
+            it.shrink_last()
+            out += pre + [it] + post
+        else:
+            out.append(it)
+    items = out
+    for it in items:
+        if isinstance(it, _Run):
+            it.reindex()
+    # 2. absorb whole iterations of single steps, merge loops; to a fixpoint
+    changed = True
+    while changed:
+        changed = False
+        for k, it in enumerate(items):
+            if not isinstance(it, _Run):
+                continue
+            m = len(it.body)
+            nxt = items[k + 1:k + 1 + m]
+            if len(nxt) == m and all(not isinstance(x, _Run) for x in nxt) and \
+                    nxt == [it.at(j, it.last + Affine.const(it.step)) for j in range(m)]:
+                it.grow(True)
+                del items[k + 1:k + 1 + m]
+                changed = True
+                break
+            prv = items[max(0, k - m):k]
+            if len(prv) == m and all(not isinstance(x, _Run) for x in prv) and \
+                    prv == [it.at(j, it.first - Affine.const(it.step)) for j in range(m)]:
+                it.grow(False)
+                del items[k - m:k]
+                changed = True
+                break
+            if k + 1 < len(items) and isinstance(items[k + 1], _Run):
+                o = items[k + 1]
+                if o.desc == it.desc and o.body == it.body and o.first == it.last + Affine.const(it.step):
+                    if it.desc:
+                        it.i0 = o.i0
+                    else:
+                        it.i1 = o.i1
+                    del items[k + 1]
+                    changed = True
+                    break
+            if it.i1 == it.i0 - ONE:
+                del items[k]                    # a loop over no position
+                changed = True
+                break
+    return items
+
+
 def check_palindrome(segs):
     """the time-ordered event sequence equals its own reversal (with mirrored, i.e. equal, step fractions).
-    Returns (ok, detail)."""
+    Both sequences are compared in the normal form of `normal_runs`.  Returns (ok, detail)."""
     rev = []
     for sg in reversed(segs):
         if sg[0] == 'single':
@@ -960,34 +1342,16 @@ def check_palindrome(segs):
         else:
             _, var, i0, i1, desc, evs = sg
             rev.append(('loop', var, i0, i1, not desc, list(reversed(evs))))
-    if len(rev) != len(segs):
-        return False, 'different number of segments'
-    for k, (a, b) in enumerate(zip(segs, rev)):
-        if a[0] != b[0]:
-            return False, f'segment {k}: a loop is mirrored by a single step'
-        if a[0] == 'single':
-            if _ev_key(a[1]) != _ev_key(b[1]):
-                return False, f'segment {k}: step {a[1]} is mirrored by {b[1]}'
-            continue
-        _, va, a0, a1, da, ea = a
-        _, vb, b0, b1, db, eb = b
-        if da != db:
-            return False, f'segment {k}: sweep direction is not mirrored'
-        if len(ea) != len(eb):
-            return False, f'segment {k}: {len(ea)} sub-steps are mirrored by {len(eb)}'
-        shift = b0 - a0
-        if not shift.is_const() or (b1 - a1) != shift:
-            return False, f'segment {k}: loop ranges [{a0}, {a1}] and [{b0}, {b1}] are not translates of each other'
-        # event j of a at index i must equal event j of b at index i + shift
-        for j, (x, y) in enumerate(zip(ea, eb)):
-            kx = _ev_key(x)
-            ky_lo = y.lo.subst(vb, Affine.sym(va) + shift) if vb in y.lo.syms() else y.lo
-            ky_hi = y.hi.subst(vb, Affine.sym(va) + shift) if vb in y.hi.syms() else y.hi
-            ky = (y.kind, ky_lo, ky_hi, y.coef)
-            if kx != ky:
-                return False, (f'segment {k}, sub-step {j}: {x.kind} on [{x.lo}, {x.hi}] with fraction {x.coef} is mirrored '
-                               f'by {y.kind} on [{ky_lo}, {ky_hi}] with fraction {y.coef}')
-    return True, f'{len(segs)} segments'
+    a, b = normal_runs(segs), normal_runs(rev)
+    show = lambda x: str(x) if isinstance(x, _Run) else _tstr(x)
+    for k, (x, y) in enumerate(zip(a, b)):
+        kx = x.key() if isinstance(x, _Run) else x
+        ky = y.key() if isinstance(y, _Run) else y
+        if kx != ky:
+            return False, f'segment {k}: `{show(x)}` is mirrored by `{show(y)}`'
+    if len(a) != len(b):
+        return False, 'the sequence and its mirror image differ in length'
+    return True, f'{len(a)} segments in normal form'
 
 
 def coverage(segs, kind):
@@ -1015,16 +1379,20 @@ def coverage(segs, kind):
     return out
 
 
-def check_budget(segs, kind, lo, hi, total):
-    """events of `kind` tile [lo, hi] with summed step fraction `total` on every element.  (ok, detail)"""
+def check_budget(segs, kind, lo, hi, total, facts=()):
+    """events of `kind` tile [lo, hi] with summed step fraction `total` on every element.  (ok, detail)
+    The interval ends are ordered under `facts`; on every elementary piece the fractions of the covering intervals are
+    summed."""
     cov = coverage(segs, kind)
     if cov is None:
         return False, 'an event position is not of the form i + c'
     if not cov:
         return False, f'no {kind} step found'
-    # group identical intervals
+    ctx = Ctx(list(facts), [])
     groups = []
     for a, b, c in cov:
+        if nonneg(a - b - ONE, ctx):
+            continue            # an empty range of positions
         for g in groups:
             if g[0] == a and g[1] == b:
                 g[2] += c
@@ -1032,19 +1400,34 @@ def check_budget(segs, kind, lo, hi, total):
         else:
             groups.append([a, b, Fraction(c)])
     detail = ', '.join(f'[{a}, {b}] x {c}' for a, b, c in groups)
-    if any(c != total for _, _, c in groups):
-        return False, f'step fractions do not sum to {total} everywhere: {detail}'
-    # chain the intervals by adjacency, starting at the expected lower end
-    rest = list(groups)
-    cur = lo
-    while rest:
-        nxt = [g for g in rest if g[0] == cur]
-        if len(nxt) != 1:
-            return False, f'coverage has a gap or overlap at position {cur}: {detail}'
-        rest.remove(nxt[0])
-        cur = nxt[0][1] + ONE
-    if cur != hi + ONE:
-        return False, f'covered range ends at {cur - ONE}, expected {hi}: {detail}'
+    # cut points: starts a and ends b + 1 of all intervals plus those of the expected range, in increasing order
+    cuts = []
+    for p_ in [lo, hi + ONE] + [g[0] for g in groups] + [g[1] + ONE for g in groups]:
+        if not any(p_ == q_ for q_ in cuts):
+            cuts.append(p_)
+    import functools
+
+    def cmp(x, y):
+        if nonneg(y - x - ONE, ctx):
+            return -1
+        if nonneg(x - y - ONE, ctx):
+            return 1
+        raise Undecided(f'cannot order positions {x} and {y}')
+    try:
+        cuts.sort(key=functools.cmp_to_key(cmp))
+        for g in groups:
+            if not nonneg(g[1] - g[0], ctx):
+                raise Undecided(f'cannot decide whether [{g[0]}, {g[1]}] is empty')
+    except Undecided as ex:
+        return False, f'{ex}: {detail}'
+    for x, y in zip(cuts, cuts[1:]):
+        # piece [x, y - 1]
+        inside = nonneg(x - lo, ctx) and nonneg(hi - (y - ONE), ctx)
+        tot = sum((g[2] for g in groups if nonneg(x - g[0], ctx) and nonneg(g[1] - (y - ONE), ctx)), Fraction(0))
+        if inside and tot != total:
+            return False, f'step fractions sum to {tot} instead of {total} on positions [{x}, {y - ONE}]: {detail}'
+        if not inside and tot != 0:
+            return False, f'positions [{x}, {y - ONE}] outside [{lo}, {hi}] receive steps: {detail}'
     return True, detail
 
 
